@@ -357,3 +357,29 @@ def with_empty_chunks(draw, sizes):
     for _ in range(integer(draw, 1, 2)):
         out.insert(integer(draw, 0, len(out)), 0)
     return out
+
+
+BIG_ROWS = [1025, 4097, 5000, 8193, 20000, 66000]
+
+
+def big_rows_case(draw, maxF=3, maxK=3):
+    """A seed-only description of thousands of rows around k centres (rebuilt by big_rows(case); a 66000-row array
+    does not belong in a replay file), cut into a few large uneven chunks."""
+    n = choice(draw, BIG_ROWS) + integer(draw, 0, 7)
+    cuts = sorted(set(integer(draw, 1, n - 1) for _ in range(integer(draw, 1, 4))))
+    return {"F": integer(draw, 1, maxF), "k": integer(draw, 2, maxK), "n": n, "scale": 10.0 ** integer(draw, -2, 2),
+            "data_seed": integer(draw, 0, 2**31 - 1), "sorted": boolean(draw),
+            "chunks": [b - a for a, b in zip([0] + cuts, cuts + [n])]}
+
+
+def big_rows(case):
+    """-> X (n, F), centres-with-noise (k, F): a pure function of the case."""
+    r = np.random.default_rng(int(case["data_seed"]))
+    F, k, n, scale = int(case["F"]), int(case["k"]), int(case["n"]), float(case["scale"])
+    centres = r.normal(0, 3, (k, F))
+    lab = r.integers(0, k, n)
+    if case["sorted"]:
+        lab = np.sort(lab)
+    X = scale * (centres[lab] + r.normal(0, 1.0, (n, F)))
+    init = X[r.choice(n, size=k, replace=False)] + scale * r.normal(0, 0.3, (k, F))
+    return X, init
